@@ -384,18 +384,22 @@ def parse(c, flat):
     cur = Cur(flat)
     steps = []
     for o in c["ops"]:
+        ix = {"code": cur.i}
         code = cur.get()
         tag = cur.get()
         ret = None
         if tag == 1:
+            ix["ret"] = cur.i
             ret = ("claim", cur.coins(), cur.coins())
         elif tag == 2:
+            ix["ret"] = cur.i
             ret = ("del", cur.coins())
         hd = None
         if o["k"] != "make":
             hd = cur.recv()
+        ix["store"] = cur.i
         st = cur.store(c["nn"])
-        steps.append({"code": code, "ret": ret, "handle": hd, "store": st})
+        steps.append({"code": code, "ret": ret, "handle": hd, "store": st, "ix": ix})
     assert cur.get() == -2
     final = [cur.store(c["nn"]) for _ in range(c["na"])]
     assert cur.i == len(flat)
@@ -410,7 +414,8 @@ def well_formed(cs):
     return all(v != 0 for _, v in cs) and all(cs[i][0] < cs[i + 1][0] for i in range(len(cs) - 1))
 
 
-def oracle(c, flat):
+def oracle(c, flat, checked=None):
+    """checked (optional list): receives the indices of the calls whose outcome the oracle fully judged"""
     try:
         steps, final = parse(c, flat)
     except Exception as ex:  # malformed observation
@@ -529,6 +534,8 @@ def oracle(c, flat):
             if after != before:
                 bad("error_has_effect", i, "%s: the failed call changed the state\n before %s\n after  %s" % (must_fail, before, after), op=k)
             tr.after(a, h, k, code if code != 0 else 1)
+            if checked is not None:
+                checked.append(i)
             continue
         if code != 0:
             if code == 99 and (tolerant or may_panic):
@@ -615,6 +622,8 @@ def oracle(c, flat):
         if after[0] is None:
             bad("accum_vanished", i, "accumulator no longer readable")
             continue
+        if checked is not None:
+            checked.append(i)
         tot = after[0][0]
         osum = 0
         for m in range(nn):
@@ -631,6 +640,11 @@ def oracle(c, flat):
                     bad("shares_wrong", i, "name %d holds %s shares, history says %s" % (m, rec[0], P[m]["shares"]), op=k)
         if tot != osum:
             bad("total_shares", i, "recorded total shares %s != sum of position shares %s" % (tot, osum), op=k)
+    if c.get("tricky"):
+        # names chosen to probe the key layout of prefix.go: whatever goes wrong here is the key collision
+        for v in V:
+            v["rec"] = {"kind": "key_collision", "fn": "accum.FormatPositionPrefixKey",
+                        "input_class": "accum_name_ends_and_position_name_starts_with_separator_char", "seen_as": v["rec"]["kind"]}
     return V
 
 
@@ -644,6 +658,74 @@ def nontrivial(c, steps):
     return paid and changed
 
 
+def first_difference(c, flat):
+    """ask Coq for the model's full observation list of one case and name the first call where it differs"""
+    import re
+    try:
+        v = ("From Coq Require Import ZArith List Bool. Import ListNotations.\n"
+             "From Osmo Require Import Base.Obs C15.Model C15.Corr.\nOpen Scope Z_scope.\n"
+             "Definition c := %s.\nDefinition M := Eval vm_compute in model_obs c.\nPrint M.\n" % coq_case(c, flat))
+        rc, o = common.coq_eval("C15_diff_%d" % (zhash(flat) % 10 ** 9), v)
+        m = re.search(r"M\s*=\s*\[(.*?)\]", o.replace("\n", " "))
+        mod = [int(x) for x in re.findall(r"-?\d+", m.group(1))]
+        steps, _ = parse(c, flat)
+        for i, (o_, s_) in enumerate(zip(c["ops"], steps)):
+            a = s_["ix"]["code"]
+            b = steps[i + 1]["ix"]["code"] if i + 1 < len(steps) else len(flat)
+            if flat[a:b] != mod[a:b]:
+                return ": first difference at call %d %s: implementation %s, model %s" % (i, json.dumps(o_), flat[a:b][:40], mod[a:b][:40])
+        return ": difference in the final dump"
+    except Exception as ex:
+        return " (could not localise: %r)" % (ex,)
+
+
+def selftest(good, out):
+    """unit check of the machinery on this run's own data: hand-perturbed observations must be flagged by the
+    oracle, and their digests must be rejected by case_ok.  Returns the perturbed (case, flat) pairs for Coq."""
+    want = {"total_shares": None, "claim_amount": None, "invalid_op_succeeded": None, "error_has_effect": None}
+    pert = []
+    for c, flat in good[:400]:
+        judged = []
+        if oracle(c, flat, judged):
+            continue
+        steps, _ = parse(c, flat)
+        for i, (o, s) in enumerate(zip(c["ops"], steps)):
+            k = o["k"]
+            if i not in judged:
+                continue
+            if want["total_shares"] is None and s["code"] == 0 and k in ("add", "new") and s["store"][0] is not None:
+                f2 = list(flat)
+                f2[s["ix"]["store"] + 1] += 1                       # recorded total shares off by one ulp
+                want["total_shares"] = (c, f2)
+            if want["claim_amount"] is None and s["code"] == 0 and k == "claim" and s["ret"] and s["ret"][1]:
+                f2 = list(flat)
+                f2[s["ix"]["ret"] + 2] += 1                         # one more whole coin paid
+                want["claim_amount"] = (c, f2)
+            if want["invalid_op_succeeded"] is None and s["code"] in (4, 5, 6, 7, 8) and k != "claim":
+                f2 = list(flat)
+                f2[s["ix"]["code"]] = 0                             # the failing call reported as success
+                want["invalid_op_succeeded"] = (c, f2)
+            if want["error_has_effect"] is None and s["code"] in (4, 5, 6, 7, 8) and s["store"][0] is not None:
+                f2 = list(flat)
+                f2[s["ix"]["store"] + 1] += 1                       # a failed call that changed the total
+                want["error_has_effect"] = (c, f2)
+        if all(v is not None for v in want.values()):
+            break
+    ok = True
+    for kind, cf in want.items():
+        if cf is None:
+            out.notes.append("self-test: no case to perturb for %s" % kind)
+            continue
+        kinds = {v["rec"]["kind"] for v in oracle(cf[0], cf[1])}
+        if kind not in kinds:
+            ok = False
+            out.mismatches.append({"what": "self-test failed: the oracle did not flag a perturbed observation (%s); flagged %s" % (kind, sorted(kinds)), "case": None})
+        pert.append(cf)
+    if ok and pert:
+        out.notes.append("self-test: the oracle flagged all %d hand-perturbed observations (%s)" % (len(pert), ", ".join(k for k, v in want.items() if v)))
+    return pert
+
+
 def run_cases(cases, model_ok, out, tag, per_file=12):
     binary = common.go_build("c15drv")
     obs = common.run_driver(binary, [wire(c) for c in cases], shards=8)
@@ -654,7 +736,8 @@ def run_cases(cases, model_ok, out, tag, per_file=12):
             out.oracle_violations.append({"what": o["err"], "rec": {"kind": "driver_panic"}, "case": c})
             continue
         flat = o["flat"]
-        good.append((c, flat))
+        if not c.get("tricky"):     # the model keeps accumulators apart by construction (see known finding C15-F1)
+            good.append((c, flat))
         for v in oracle(c, flat):
             v["case"] = c
             out.oracle_violations.append(v)
@@ -667,6 +750,7 @@ def run_cases(cases, model_ok, out, tag, per_file=12):
     if not model_ok:
         out.model_ran = False
         return
+    perturbed = selftest(good, out) if tag == "q" else []
     items = []
     for fi in range(0, len(good), per_file):
         chunk = good[fi:fi + per_file]
@@ -684,8 +768,20 @@ def run_cases(cases, model_ok, out, tag, per_file=12):
             continue
         for idx in mm:
             c, fl = good[fi + idx]
-            out.mismatches.append({"what": "C15 model_obs differs from implementation observations", "case": c,
+            out.mismatches.append({"what": "C15 model_obs differs from implementation observations" + first_difference(c, fl), "case": c,
                                    "impl_flat": [str(x) for x in fl]})
+    if perturbed:
+        body = ";\n  ".join(coq_case(c, fl) for c, fl in perturbed)
+        v = ("From Coq Require Import ZArith List Bool. Import ListNotations.\n"
+             "From Osmo Require Import Base.Obs C15.Model C15.Corr.\nOpen Scope Z_scope.\n"
+             "Definition cases : list case := [\n  %s ].\n"
+             "Definition M := Eval vm_compute in mismatches case_ok cases.\nPrint M.\n" % body)
+        rc, o = common.coq_eval("C15_%s_selftest" % tag, v)
+        mm = common.parse_nat_list(o)
+        if rc != 0 or mm != list(range(len(perturbed))):
+            out.mismatches.append({"what": "self-test failed: case_ok accepted a perturbed expectation (rejected %s of %d)" % (mm, len(perturbed)), "case": None})
+        else:
+            out.notes.append("self-test: case_ok rejected all %d perturbed expectations" % len(perturbed))
 
 
 def correspond(tier, seed, model_ok):
@@ -736,8 +832,20 @@ def replay(path):
     return 1 if (out.oracle_violations or out.mismatches) else 0
 
 
-SCOPE = "in progress"
-EXPLANATION = "in progress"
+SCOPE = ("full: C15_full_holds and its twelve component theorems in Properties/C15.v are proved for every history (any length, any number of names "
+         "and denominations, plain and interval API, stale AccumulatorObjects where the code tolerates them), axiom-free; statements are about calls "
+         "that return (a panicking call - LegacyDec overflow, negative DecCoins.Sub - is a transaction abort with no effect); absence of such panics "
+         "is not claimed")
+EXPLANATION = ("Gallina model C15/Model.v of osmoutils/accum (all exported methods, receiver object separate from the store so that the re-read of "
+               "total shares matters) and of the DecCoins/Coins operations it calls (safeAdd merge, Sub with its negativity panic, MulDec half-even, "
+               "TruncateDecimal, range assertions). Ghost spec C15/Spec.v defined on the call history alone: intervals of constant shares, "
+               "claimable = sum MulDec(growth in interval, shares) + added. Two invariants by induction over histories (records mirror liveness/"
+               "shares, total = sum; value = total growth, record = (reference point, settled rewards)), from which: ClaimRewards pays trunc(claimable) "
+               "with the fractional part as dust, DeletePosition pays claimable, claims frame everything else, zero-share claims and deletions remove "
+               "the record, error <=> the call is one the property lists and then nothing changes, |claimable - exact rational| <= 1/2 ulp per interval. "
+               "The model is tied to /repo by running harness/c15drv (real package over an IAVL store) on generated histories and comparing, after "
+               "every call, the return value / error enum, the handle's and a fresh handle's value and total shares, and every name's record; an "
+               "independent exact-rational oracle replays growth x shares from the property text.")
 TRUSTED = [
     "hand-written model coq/theories/C15/Model.v (osmoutils/accum + the sdk.DecCoins/Coins operations it calls), tied to /repo by the correspondence run (harness/c15drv)",
     "harness/c15drv (Go), props/c15.py (generator, flattening, oracle), Coq vm_compute evaluation of generated case files",
@@ -748,5 +856,13 @@ ASSUMPTIONS = [
     "each position name is created at most once while it exists; the AccumulatorObject used holds the accumulator's current value (and current total shares for AddToAccumulator / DeletePosition)",
 ]
 TECHNIQUE = "Coq proof by induction over operation histories on a Gallina model of osmoutils/accum; model tied to the Go package by differential correspondence (vm_compute) + exact-rational oracle"
-LEVEL_TEXT = "in progress"
-LEVEL_NOTE = "in progress"
+LEVEL_TEXT = ("Machine-checked theorems (Coq 8.16.1, axiom-free) over all finite histories of the accumulator API: total shares = sum of position "
+              "shares; records exist exactly for live names with the history's share counts; ClaimRewards/DeletePosition pay (the truncation of) the "
+              "history-defined claimable amount, which is within 1/2*10^-18 per interval of the exact rational growth x shares; a claim changes only the "
+              "claimer; deletions and zero-share claims remove the record; exactly the listed invalid calls return an error and then nothing changes. "
+              "The hand-written model is checked against the real Go package on ~2000 generated histories per run (every observable after every call) "
+              "and an independent Fraction oracle evaluates the property's own predicates on the implementation's outputs.")
+LEVEL_NOTE = ("Trusted: Coq kernel (vm_compute), no axioms; hand-written model C15/Model.v (incl. its reading of the SDK's DecCoins/LegacyDec code and "
+              "the identity protobuf round trip); Go driver and python glue; observation lists are compared through a 512-bit polynomial digest. "
+              "Panics are modelled as transaction aborts; their absence is not proved. Known finding C15-F1: position keys of different accumulators "
+              "can collide when names contain '|' next to the separator - the model keeps accumulators apart by construction.")
